@@ -44,10 +44,10 @@ var specList = []specFn{
 	{Name: "empty", Counts: []int{0}, Recv: "%multi", Impl: true, Aggregate: true, Finger: map[int][]string{0: {"{}.empty()", "%multi.empty() = false"}}},
 	{Name: "exists", Counts: []int{0, 1}, Recv: "%multi", Args: []string{"$this = 2"}, Impl: true, Aggregate: true, Finger: map[int][]string{0: {"%multi.exists()", "{}.exists() = false"}, 1: {"%multi.exists($this = 2)", "%multi.exists($this = 9) = false"}}},
 	{Name: "all", Counts: []int{1}, Recv: "%multi", Args: []string{"$this > 0"}, Impl: true, Aggregate: true, Finger: map[int][]string{1: {"%multi.all($this > 0)", "%multi.all($this > 1) = false"}}},
-	{Name: "allTrue", Counts: []int{0}, Recv: "%multib", Impl: true, Aggregate: true, Finger: map[int][]string{0: {"%multib.allTrue() = false", "%allt.allTrue()"}}},
-	{Name: "anyTrue", Counts: []int{0}, Recv: "%multib", Impl: true, Aggregate: true, Finger: map[int][]string{0: {"%multib.anyTrue()", "%allf.anyTrue() = false"}}},
-	{Name: "allFalse", Counts: []int{0}, Recv: "%multib", Impl: true, Aggregate: true, Finger: map[int][]string{0: {"%multib.allFalse() = false", "%allf.allFalse()"}}},
-	{Name: "anyFalse", Counts: []int{0}, Recv: "%multib", Impl: true, Aggregate: true, Finger: map[int][]string{0: {"%multib.anyFalse()", "%allt.anyFalse() = false"}}},
+	{Name: "allTrue", Counts: []int{0}, Recv: "%multib", Impl: true, Aggregate: true, Finger: map[int][]string{0: {"{}.allTrue()", "%multib.allTrue() = false", "%allt.allTrue()"}}},
+	{Name: "anyTrue", Counts: []int{0}, Recv: "%multib", Impl: true, Aggregate: true, Finger: map[int][]string{0: {"{}.anyTrue() = false", "%multib.anyTrue()", "%allf.anyTrue() = false"}}},
+	{Name: "allFalse", Counts: []int{0}, Recv: "%multib", Impl: true, Aggregate: true, Finger: map[int][]string{0: {"{}.allFalse()", "%multib.allFalse() = false", "%allf.allFalse()"}}},
+	{Name: "anyFalse", Counts: []int{0}, Recv: "%multib", Impl: true, Aggregate: true, Finger: map[int][]string{0: {"{}.anyFalse() = false", "%multib.anyFalse()", "%allt.anyFalse() = false"}}},
 	{Name: "subsetOf", Counts: []int{1}, Recv: "%multi", Args: []string{"%multi"}},
 	{Name: "supersetOf", Counts: []int{1}, Recv: "%multi", Args: []string{"%multi"}},
 	{Name: "count", Counts: []int{0}, Recv: "%multi", Impl: true, Aggregate: true, Finger: map[int][]string{0: {"%multi.count() = 3", "{}.count() = 0"}}},
@@ -58,11 +58,11 @@ var specList = []specFn{
 	{Name: "repeat", Counts: []int{1}, Recv: "%multi", Args: []string{"$this"}},
 	{Name: "ofType", Counts: []int{1}, Recv: "%multi", Args: []string{"Integer"}},
 	{Name: "single", Counts: []int{0}, Recv: "%multi.first()"},
-	{Name: "first", Counts: []int{0}, Recv: "%multi", Impl: true, Finger: map[int][]string{0: {"%multi.first() = 1"}}},
-	{Name: "last", Counts: []int{0}, Recv: "%multi", Impl: true, Finger: map[int][]string{0: {"%multi.last() = 3"}}},
+	{Name: "first", Counts: []int{0}, Recv: "%multi", Impl: true, Finger: map[int][]string{0: {"%dups.tail().first() = 1", "%multi.first() = 1"}}},
+	{Name: "last", Counts: []int{0}, Recv: "%multi", Impl: true, Finger: map[int][]string{0: {"%dups.last() = 2", "%multi.last() = 3"}}},
 	{Name: "tail", Counts: []int{0}, Recv: "%multi", Impl: true, Finger: map[int][]string{0: {"%multi.tail().count() = 2", "%multi.tail().first() = 2"}}},
-	{Name: "skip", Counts: []int{1}, Recv: "%multi", Args: []string{"1"}, Impl: true, SingleArg: []int{0}, Finger: map[int][]string{1: {"%multi.skip(1).first() = 2", "%multi.skip(1).count() = 2"}}},
-	{Name: "take", Counts: []int{1}, Recv: "%multi", Args: []string{"2"}, Impl: true, SingleArg: []int{0}, Finger: map[int][]string{1: {"%multi.take(2).count() = 2", "%multi.take(2).last() = 2"}}},
+	{Name: "skip", Counts: []int{1}, Recv: "%multi", Args: []string{"1"}, Impl: true, SingleArg: []int{0}, Finger: map[int][]string{1: {"%multi.skip(2).first() = 3", "%multi.skip(1).first() = 2", "%multi.skip(1).count() = 2"}}},
+	{Name: "take", Counts: []int{1}, Recv: "%multi", Args: []string{"2"}, Impl: true, SingleArg: []int{0}, Finger: map[int][]string{1: {"%multi.take(1).count() = 1", "%multi.take(2).count() = 2", "%multi.take(2).last() = 2"}}},
 	{Name: "intersect", Counts: []int{1}, Recv: "%multi", Args: []string{"%dups"}, Impl: true, Finger: map[int][]string{1: {"%multi.intersect(%dups).count() = 2"}}},
 	{Name: "exclude", Counts: []int{1}, Recv: "%multi", Args: []string{"%dups"}, Impl: true, Finger: map[int][]string{1: {"%multi.exclude(%dups).count() = 1", "%multi.exclude(%dups).first() = 3"}}},
 	{Name: "union", Counts: []int{1}, Recv: "%multi", Args: []string{"%dups"}},
@@ -70,35 +70,35 @@ var specList = []specFn{
 	{Name: "iif", Counts: []int{2, 3}, Recv: "", Args: []string{"true", "1", "2"}, Impl: true, Aggregate: true, Finger: map[int][]string{2: {"iif(true, 1) = 1", "iif(false, 1).empty()"}, 3: {"iif(false, 1, 2) = 2", "iif(true, 1, 2) = 1"}}},
 	{Name: "toBoolean", Counts: []int{0}, Recv: "'true'", Impl: true, Finger: map[int][]string{0: {"'true'.toBoolean()", "'false'.toBoolean() = false"}}},
 	{Name: "convertsToBoolean", Counts: []int{0}, Recv: "'true'", Impl: true, Finger: map[int][]string{0: {"'yes'.convertsToBoolean()", "'maybe'.convertsToBoolean() = false"}}},
-	{Name: "toInteger", Counts: []int{0}, Recv: "'12'", Impl: true, Finger: map[int][]string{0: {"'12'.toInteger() = 12", "true.toInteger() = 1"}}},
-	{Name: "convertsToInteger", Counts: []int{0}, Recv: "'12'", Impl: true, Finger: map[int][]string{0: {"'12'.convertsToInteger()", "1.5.convertsToInteger() = false"}}},
-	{Name: "toDate", Counts: []int{0}, Recv: "'2020-01-02'", Impl: true, Finger: map[int][]string{0: {"'2020-01-02'.toDate() = @2020-01-02"}}},
-	{Name: "convertsToDate", Counts: []int{0}, Recv: "'2020-01-02'", Impl: true, Finger: map[int][]string{0: {"'2020-01-02'.convertsToDate()", "'10:00'.convertsToDate() = false"}}},
-	{Name: "toDateTime", Counts: []int{0}, Recv: "'2020-01-02T10:00:00Z'", Impl: true, Finger: map[int][]string{0: {"'2020-01-02T10:00:00Z'.toDateTime() = @2020-01-02T10:00:00Z"}}},
+	{Name: "toInteger", Counts: []int{0}, Recv: "'12'", Impl: true, Finger: map[int][]string{0: {"'12'.toInteger() is System.Integer", "'12'.toInteger() = 12", "true.toInteger() = 1"}}},
+	{Name: "convertsToInteger", Counts: []int{0}, Recv: "'12'", Impl: true, Finger: map[int][]string{0: {"'99'.convertsToInteger()", "'12'.convertsToInteger()", "1.5.convertsToInteger() = false"}}},
+	{Name: "toDate", Counts: []int{0}, Recv: "'2020-01-02'", Impl: true, Finger: map[int][]string{0: {"'2020-01-02'.toDate() is System.Date", "'2020-01-02'.toDate() = @2020-01-02"}}},
+	{Name: "convertsToDate", Counts: []int{0}, Recv: "'2020-01-02'", Impl: true, Finger: map[int][]string{0: {"'2020-01-02T10:00:00Z'.convertsToDate() = false", "'2020-01-02'.convertsToDate()", "'10:00'.convertsToDate() = false"}}},
+	{Name: "toDateTime", Counts: []int{0}, Recv: "'2020-01-02T10:00:00Z'", Impl: true, Finger: map[int][]string{0: {"'2020-01-02T10:00:00Z'.toDateTime() is System.DateTime", "'2020-01-02T10:00:00Z'.toDateTime() = @2020-01-02T10:00:00Z"}}},
 	{Name: "convertsToDateTime", Counts: []int{0}, Recv: "'2020-01-01T10:00:00Z'", Impl: true, Finger: map[int][]string{0: {"'2020-01-01T10:00:00Z'.convertsToDateTime()", "'10:00'.convertsToDateTime() = false"}}},
-	{Name: "toDecimal", Counts: []int{0}, Recv: "'1.5'", Impl: true, Finger: map[int][]string{0: {"'1.5'.toDecimal() = 1.5", "true.toDecimal() = 1.0"}}},
-	{Name: "convertsToDecimal", Counts: []int{0}, Recv: "'1.5'", Impl: true, Finger: map[int][]string{0: {"'1.5'.convertsToDecimal()", "'x'.convertsToDecimal() = false"}}},
+	{Name: "toDecimal", Counts: []int{0}, Recv: "'1.5'", Impl: true, Finger: map[int][]string{0: {"'1.5'.toDecimal() is System.Decimal", "'1.5'.toDecimal() = 1.5", "true.toDecimal() = 1.0"}}},
+	{Name: "convertsToDecimal", Counts: []int{0}, Recv: "'1.5'", Impl: true, Finger: map[int][]string{0: {"'1 \\'mg\\''.convertsToDecimal() = false", "'1.5'.convertsToDecimal()", "'x'.convertsToDecimal() = false"}}},
 	{Name: "toQuantity", Counts: []int{0, 1}, Recv: "5", Args: []string{"'days'"}, Impl: true, SingleArg: []int{0}, Finger: map[int][]string{0: {"5.toQuantity() is System.Quantity", "5.toQuantity() = 5 '1'", "'1 \\'wk\\''.toQuantity() is System.Quantity"}}},
 	{Name: "convertsToQuantity", Counts: []int{0, 1}, Recv: "5", Args: []string{"'days'"}, Impl: true, SingleArg: []int{0}, Finger: map[int][]string{0: {"'5 \\'mg\\''.convertsToQuantity()", "'x'.convertsToQuantity() = false"}}},
-	{Name: "toString", Counts: []int{0}, Recv: "12", Impl: true, Finger: map[int][]string{0: {"12.toString() = '12'", "true.toString() = 'true'"}}},
-	{Name: "convertsToString", Counts: []int{0}, Recv: "12", Impl: true, Finger: map[int][]string{0: {"12.convertsToString()"}}},
-	{Name: "toTime", Counts: []int{0}, Recv: "'10:30'", Impl: true, Finger: map[int][]string{0: {"'10:30'.toTime() = @T10:30"}}},
+	{Name: "toString", Counts: []int{0}, Recv: "12", Impl: true, Finger: map[int][]string{0: {"12.toString() is System.String", "12.toString() = '12'", "true.toString() = 'true'"}}},
+	{Name: "convertsToString", Counts: []int{0}, Recv: "12", Impl: true, Finger: map[int][]string{0: {"'abc'.convertsToString()", "{}.convertsToString().empty()", "12.convertsToString()"}}},
+	{Name: "toTime", Counts: []int{0}, Recv: "'10:30'", Impl: true, Finger: map[int][]string{0: {"'10:30'.toTime() is System.Time", "'10:30'.toTime() = @T10:30"}}},
 	{Name: "convertsToTime", Counts: []int{0}, Recv: "'10:30'", Impl: true, Finger: map[int][]string{0: {"'10:30'.convertsToTime()", "'2020'.convertsToTime() = false"}}},
 	{Name: "indexOf", Counts: []int{1}, Recv: "'abcdefg'", Args: []string{"'cd'"}, Impl: true, SingleArg: []int{0}, Finger: map[int][]string{1: {"'abcdefg'.indexOf('cd') = 2", "'abcdefg'.indexOf('x') = -1"}}},
 	{Name: "substring", Counts: []int{1, 2}, Recv: "'abcdefg'", Args: []string{"1", "2"}, Impl: true, SingleArg: []int{0, 1}, Finger: map[int][]string{1: {"'abcdefg'.substring(3) = 'defg'"}, 2: {"'abcdefg'.substring(1, 2) = 'bc'"}}},
 	{Name: "startsWith", Counts: []int{1}, Recv: "'abc'", Args: []string{"'ab'"}, Impl: true, SingleArg: []int{0}, Finger: map[int][]string{1: {"'abc'.startsWith('ab')", "'abc'.startsWith('bc') = false"}}},
 	{Name: "endsWith", Counts: []int{1}, Recv: "'abc'", Args: []string{"'bc'"}, Impl: true, SingleArg: []int{0}, Finger: map[int][]string{1: {"'abc'.endsWith('bc')", "'abc'.endsWith('ab') = false"}}},
-	{Name: "contains", Counts: []int{1}, Recv: "'abc'", Args: []string{"'b'"}, Impl: true, SingleArg: []int{0}, Finger: map[int][]string{1: {"'abc'.contains('b')", "'abc'.contains('x') = false"}}},
+	{Name: "contains", Counts: []int{1}, Recv: "'abc'", Args: []string{"'b'"}, Impl: true, SingleArg: []int{0}, Finger: map[int][]string{1: {"'abc'.contains('a.c') = false", "'abc'.contains('b')", "'abc'.contains('x') = false"}}},
 	{Name: "upper", Counts: []int{0}, Recv: "'abc'", Impl: true, Finger: map[int][]string{0: {"'abc'.upper() = 'ABC'"}}},
 	{Name: "lower", Counts: []int{0}, Recv: "'ABC'", Impl: true, Finger: map[int][]string{0: {"'ABC'.lower() = 'abc'"}}},
-	{Name: "replace", Counts: []int{2}, Recv: "'abcdefg'", Args: []string{"'cde'", "'123'"}, Impl: true, SingleArg: []int{0, 1}, Finger: map[int][]string{2: {"'abcdefg'.replace('cde', '123') = 'ab123fg'"}}},
-	{Name: "matches", Counts: []int{1}, Recv: "'abc'", Args: []string{"'^a.c$'"}, Impl: true, SingleArg: []int{0}, Finger: map[int][]string{1: {"'abc'.matches('^a.c$')", "'abd'.matches('^a.c$') = false"}}},
-	{Name: "replaceMatches", Counts: []int{2}, Recv: "'abc'", Args: []string{"'b'", "'X'"}, Impl: true, SingleArg: []int{0, 1}, Finger: map[int][]string{2: {"'abc'.replaceMatches('b', 'X') = 'aXc'"}}},
+	{Name: "replace", Counts: []int{2}, Recv: "'abcdefg'", Args: []string{"'cde'", "'123'"}, Impl: true, SingleArg: []int{0, 1}, Finger: map[int][]string{2: {"'a.c'.replace('.', 'X') = 'aXc'", "'abcdefg'.replace('cde', '123') = 'ab123fg'"}}},
+	{Name: "matches", Counts: []int{1}, Recv: "'abc'", Args: []string{"'^a.c$'"}, Impl: true, SingleArg: []int{0}, Finger: map[int][]string{1: {"'abc'.matches('b') ", "'a.c'.matches('a\\\\.c')", "'abc'.matches('^a.c$')", "'abd'.matches('^a.c$') = false"}}},
+	{Name: "replaceMatches", Counts: []int{2}, Recv: "'abc'", Args: []string{"'b'", "'X'"}, Impl: true, SingleArg: []int{0, 1}, Finger: map[int][]string{2: {"'abc'.replaceMatches('[ab]', 'X') = 'XXc'", "'abc'.replaceMatches('b', 'X') = 'aXc'"}}},
 	{Name: "length", Counts: []int{0}, Recv: "'abc'", Impl: true, Finger: map[int][]string{0: {"'abc'.length() = 3"}}},
 	{Name: "toChars", Counts: []int{0}, Recv: "'abc'", Impl: true, Finger: map[int][]string{0: {"'abc'.toChars().count() = 3", "'abc'.toChars().last() = 'c'"}}},
 	{Name: "abs", Counts: []int{0}, Recv: "5", Impl: true, Finger: map[int][]string{0: {"(-5).abs() = 5", "5.abs() = 5"}}},
 	{Name: "ceiling", Counts: []int{0}, Recv: "1.1", Impl: true, Finger: map[int][]string{0: {"1.1.ceiling() = 2", "(-1.1).ceiling() = -1"}}},
-	{Name: "exp", Counts: []int{0}, Recv: "0", Impl: true, Finger: map[int][]string{0: {"0.exp() = 1.0"}}},
+	{Name: "exp", Counts: []int{0}, Recv: "0", Impl: true, Finger: map[int][]string{0: {"1.exp() > 2.7", "0.exp() = 1.0"}}},
 	{Name: "floor", Counts: []int{0}, Recv: "1.9", Impl: true, Finger: map[int][]string{0: {"1.9.floor() = 1", "(-1.1).floor() = -2"}}},
 	{Name: "ln", Counts: []int{0}, Recv: "1", Impl: true, Finger: map[int][]string{0: {"1.ln() = 0.0"}}},
 	{Name: "log", Counts: []int{1}, Recv: "16", Args: []string{"2"}, Impl: true, SingleArg: []int{0}, Finger: map[int][]string{1: {"16.log(2) = 4.0"}}},
@@ -106,13 +106,13 @@ var specList = []specFn{
 	{Name: "round", Counts: []int{0, 1}, Recv: "3.14159", Args: []string{"3"}, Impl: true, SingleArg: []int{0}, Finger: map[int][]string{0: {"3.14159.round() = 3", "1.5.round() = 2"}, 1: {"3.14159.round(3) = 3.142"}}},
 	{Name: "sqrt", Counts: []int{0}, Recv: "16", Impl: true, Finger: map[int][]string{0: {"16.sqrt() = 4.0"}}},
 	{Name: "truncate", Counts: []int{0}, Recv: "1.9", Impl: true, Finger: map[int][]string{0: {"1.9.truncate() = 1", "(-1.9).truncate() = -1"}}},
-	{Name: "children", Counts: []int{0}, Recv: "Patient.name[0]", Impl: true, Finger: map[int][]string{0: {"Patient.name[0].children().count() > 0"}}},
-	{Name: "descendants", Counts: []int{0}, Recv: "Patient", Impl: true, Finger: map[int][]string{0: {"Patient.descendants().count() > Patient.children().count()"}}},
+	{Name: "children", Counts: []int{0}, Recv: "Patient.name[0]", Impl: true, Finger: map[int][]string{0: {"Patient.contact[0].children().count() = 1", "Patient.name[0].children().count() = 4", "Patient.name[0].children().count() > 0"}}},
+	{Name: "descendants", Counts: []int{0}, Recv: "Patient", Impl: true, Finger: map[int][]string{0: {"Patient.contact[0].descendants().count() = 2", "Patient.descendants().count() > Patient.children().count()"}}},
 	{Name: "trace", Counts: []int{1, 2}, Recv: "%multi", Args: []string{"'t'", "$this"}},
 	{Name: "now", Counts: []int{0}, Recv: "", Impl: true, Aggregate: true, Finger: map[int][]string{0: {"now() is DateTime"}}},
 	{Name: "timeOfDay", Counts: []int{0}, Recv: "", Impl: true, Aggregate: true, Finger: map[int][]string{0: {"timeOfDay() is Time"}}},
 	{Name: "today", Counts: []int{0}, Recv: "", Impl: true, Aggregate: true, Finger: map[int][]string{0: {"today() is Date"}}},
-	{Name: "not", Counts: []int{0}, Recv: "true", Impl: true, Finger: map[int][]string{0: {"true.not() = false", "false.not()"}}},
+	{Name: "not", Counts: []int{0}, Recv: "true", Impl: true, Finger: map[int][]string{0: {"{}.not().empty()", "true.not() = false", "false.not()"}}},
 	{Name: "extension", Counts: []int{1}, Recv: "%pext", Args: []string{"'http://e/x'"}, Impl: true, SingleArg: []int{0}, Finger: map[int][]string{1: {"%pext.extension('http://e/x').count() = 1", "%pext.extension('http://e/none').empty()"}}},
 	{Name: "join", Counts: []int{0, 1}, Recv: "%multis", Args: []string{"','"}, Impl: true, Exp: true, SingleArg: []int{0}, Finger: map[int][]string{0: {"%multis.join() = 'ab'"}, 1: {"%multis.join(',') = 'a,b'"}}},
 }
